@@ -1255,7 +1255,9 @@ def c36(run):
     run.cov["rule"] = ("behaviours of Doc.tla (puts / deletes / increments on a conflicted map register and on the elements of a "
                        "list, inserts, merges between 2-3 replicas; exhaustive transition coverage for small depths) are turned "
                        "into programs for a C driver (capi/driver.c) that performs them through the C ABI of automerge-c "
-                       "(AMcreate, AMmapPut*/Delete/Increment, AMlistPut*/Delete/Increment, AMcommit, AMmerge), reads results, "
+                       "(AMcreate, AMmapPut*/Delete/Increment, AMlistPut*/Delete/Increment, AMcommit, AMmerge; the text variant of "
+                       "Doc.tla with delivery-path coverage: AMspliceText, AMlistPutStr / AMlistDelete on characters of a text "
+                       "with concurrent edits, AMtext now and at the base heads), reads results, "
                        "items, byte spans and iterators (AMgetHeads, AMsave, AMkeys, AMmapGetAll, AMlistRange, AMlistGetAll, "
                        "AMobjSize, the same reads at the heads of the base change) after every step and frees results under three "
                        "disciplines (at once, all at exit in reverse, every second one late); each behaviour ends with an epilogue on "
@@ -1291,23 +1293,29 @@ def c36(run):
                      timeout=600, ok_codes=None)
     if rc != 0:
         raise ToolError("compiling the C driver failed:\n" + out[-3000:])
-    variants = [("1, 2", 3, True, 0), ("1, 2, 3", 6, True, 40)] if run.tier == "quick" else [("1, 2", 4, True, 0), ("1, 2, 3", 7, True, 400)]
+    # (the C documents are AutoCommit::new(): text indexes are code points, the Doc.tla text variant runs with Enc = "cp")
+    if run.tier == "quick":
+        variants = [("1, 2", 3, True, 0, "list"), ("1, 2, 3", 6, True, 40, "list"), ("1, 2", 3, False, 0, "text"), ("1, 2, 3", 6, False, 30, "text")]
+    else:
+        variants = [("1, 2", 4, True, 0, "list"), ("1, 2, 3", 7, True, 400, "list"), ("1, 2", 5, False, 0, "text"), ("1, 2, 3", 7, False, 300, "text")]
     total = 0
-    for vi, (reps, depth, withlist, num) in enumerate(variants):
+    for vi, (reps, depth, withlist, num, kind) in enumerate(variants):
         exh = num <= 0
-        cfg = GEN_DOC_CFG % (reps, depth, '"k1"', "TRUE", "TRUE", "FALSE", "FALSE", "FALSE", "cp", "FALSE", "FALSE",
-                             "EmitAll" if exh else "Emit", "VIEW TransitionView\n" if exh else "")
+        istext = kind == "text"
+        cfg = GEN_DOC_CFG % (reps, depth, '' if istext else '"k1"', "TRUE" if withlist else "FALSE", "TRUE", "FALSE", "FALSE",
+                             "TRUE" if istext else "FALSE", "cp", "FALSE", "FALSE",
+                             "EmitAll" if exh else "Emit", ("VIEW %s\n" % ("PathView" if istext else "TransitionView")) if exh else "")
         behs, r = tlc_behaviours("Doc.tla", cfg, os.path.join(run.work, "gendoc"), {}, num, depth + 1, run.seed + vi,
                                  exhaustive=exh, workers=4 if exh else 1)
         run.add_states(r)
         behs = sorted(set(behs))
         if run.tier == "quick":
-            behs = behs[::max(1, len(behs) // 700)][:700]
+            behs = behs[::max(1, len(behs) // 450)][:450]
         bp = os.path.join(run.work, f"beh-capi-{vi}.ndjson")
         with open(bp, "w") as f:
             f.write("\n".join(behs) + "\n")
         prog, exp, got, err = [os.path.join(run.work, f"capi-{vi}.{x}") for x in ("prog", "exp", "got", "err")]
-        rc, out, dt = sh([os.path.join(BIN, "replay"), "capi", bp, prog, exp, "epilogue"], timeout=3000, ok_codes=None)
+        rc, out, dt = sh([os.path.join(BIN, "replay"), "capi", bp, prog, exp, "epilogue", kind], timeout=3000, ok_codes=None)
         if rc != 0:
             raise ToolError("replay capi failed:\n" + out[-2000:])
         rc, out, dt = sh("%s < %s > %s 2> %s" % (drv, prog, got, err), timeout=3000, ok_codes=None,
